@@ -20,7 +20,7 @@ type c20 struct{ base }
 
 func init() {
 	core.Register(c20{base{id: "C20", level: "exploration", quickB: 8, thoroughB: 32,
-		rule: "query strings: exhaustive over all marker sequences of length <= 4 from {$0,$1,$2,$3,$5,$9,$10,?} with 3 separators; huge indexes {65534,65535,65536,2^31,2^32,2^63-1,2^63,2^64,40 digits}; random SQL-like text with quotes, $$, $x, $1a, unicode. ParseParameters is called directly in an isolated child process (crash oracle) with a TotalAlloc delta bound, compared with an independent hand-written scanner (big-integer indexes), and through the wire: Parse + Describe-statement must announce exactly the returned length. Non-trivial = has a gap, descending or repeated index, index above marker count, huge index or mixed styles; distinct = normalised marker sequence.",
+		rule: "query strings: exhaustive over all marker sequences of length <= 4 from {$0,$1,$2,$3,$5,$9,$10,?} with 3 separators; huge indexes {65534,65535,65536,2^31,2^32,2^63-1,2^63,2^64,40 digits}; queries with 60000-140000 marker occurrences (more than the limit) whose highest index appears anywhere, including after the 65535th occurrence; random SQL-like text with quotes, $$, $x, $1a, unicode. ParseParameters is called directly in an isolated child process (crash oracle) with a TotalAlloc delta bound, compared with an independent hand-written scanner (big-integer indexes), and through the wire: Parse + Describe-statement must announce exactly the returned length. Non-trivial = has a gap, descending or repeated index, index above marker count, huge index or mixed styles; distinct = normalised marker sequence.",
 		need:        []string{"direct_calls", "dollar_only_compared", "question_only_compared", "huge_index_queries", "describe_counts_compared", "gap_or_descending", "concurrent_call_rounds"},
 		assumptions: append([]string{"mixed $n/? queries and indexes above 65535 are judged for totality, result size <= 65535, zero OIDs and bounded allocation only"}, commonAssumptions...)}})
 }
@@ -98,11 +98,22 @@ func (ch c20) queries(c *core.Ctx) []string {
 	}
 	qs = append(qs, "$65535 ?", "? $65535", "select $65536, $2", "select $1, $99999999999999999999, $5", "select $4294967296 $3 $65537 $7", "select $70000 $65535", "$65534 ? ?", "$65535 $65535 ? ? ?", strings.Repeat("?", 65535), strings.Repeat("?", 65536), "$1 "+strings.Repeat("?", 65535))
 	qs = append(qs, "", "$", "$$", "$$ $1 $$", "?", "??", "$1$2", "$1a", "$a1", "'$1'", "\"?\"", "$-1", "$+1", "$ 1", "$１", "ü$1é?", "$1?$2?", strings.Repeat("?", 70000), strings.Repeat("$1 ", 30000), strings.Repeat("$", 5000)+"7")
+	// more marker occurrences than the parameter limit, the highest index first seen late
+	qs = append(qs, strings.Repeat("$1 ", 70000)+"$3", strings.Repeat("$2,$1,", 40000)+"$7", "$5 "+strings.Repeat("$1 ", 65535),
+		strings.Repeat("$1 ", 65534)+"$2", strings.Repeat("$1 ", 65535)+"$2", strings.Repeat("$1 ", 65536)+"$2", strings.Repeat("$1 ", 65536)+"$65535",
+		strings.Repeat("$1 ", 65535)+"$2 $1 $4", strings.Repeat("(?,?),", 32767)+"(?)", strings.Repeat("(?,?),", 32768)+"(?)")
 	nrand := 120000
 	if c.Tier == "thorough" {
 		nrand = 3000000
 	}
 	rng := core.NewRng(c.Seed, "C20gen", 0, 0)
+	for i := 0; i < nrand/10000; i++ {
+		n := 60000 + rng.Intn(80000)
+		unit := core.Pick(rng, []string{"$1 ", "$2,$1,", "($1,$2,$3),", "$4 "})
+		q := strings.Repeat(unit, n/strings.Count(unit, "$"))
+		at := rng.Intn(len(q)/len(unit)+1) * len(unit)
+		qs = append(qs, q[:at]+fmt.Sprintf("$%d ", 5+rng.Intn(60))+q[at:])
+	}
 	frag := []string{"select ", "from t ", "where a=", " and ", "'", "\"", "$$", "$x", "$1a", "ü", "😀", "?", "?", "$", "-- c\n", "/*", "*/", "::int", "\\", ";", "\n"}
 	for i := 0; i < nrand; i++ {
 		var sb strings.Builder
